@@ -136,7 +136,11 @@ func (e *env) shape(u *url.URL) string {
 	if u.Scheme != e.scheme {
 		return "scheme"
 	}
-	if u.Host != e.reg || u.User != nil || u.Opaque != "" {
+	host := e.reg
+	if host == "docker.io" {
+		host = "registry-1.docker.io" // documented: the registry docker.io is reached at registry-1.docker.io
+	}
+	if u.Host != host || u.User != nil || u.Opaque != "" {
 		return "authority is not the registry"
 	}
 	if u.Fragment != "" || u.RawFragment != "" {
